@@ -551,6 +551,7 @@ where
                         cluster,
                         sfn,
                         att,
+                        ClusterId::EMPTY,
                     )?,
                 };
 
